@@ -223,7 +223,10 @@ def eval_ops(ops, exe, key, shards=1, env=None, shard_timeout=900):
                         except Exception:
                             pass
                     if j is None:
-                        j = {"id": oid, key: {"outcome": "crash", "detail": (err1 or "")[-300:]}}
+                        # the process died on this operation alone (a fatal error such as a Go stack overflow cannot be recovered
+                        # in-process): outcome crash; the detail leads with the runtime's own "fatal error: …" line
+                        fe = re.search(r"^(?:fatal error|panic): .*$", err1 or "", re.M) or re.search(r"^runtime: .*$", err1 or "", re.M)
+                        j = {"id": oid, key: {"outcome": "crash", "detail": ((fe.group(0) + " | ") if fe else "") + (err1 or "")[-300:]}}
                 except subprocess.TimeoutExpired:
                     j = {"id": oid, key: {"outcome": "timeout"}}
                 got[oid] = j
@@ -487,7 +490,9 @@ def _run(pid, mod, tier, seed, replay, n_override, scratch, t0, violations, know
                     return i
             return None
         try:
-            small = shrink(dict(o), still_fails) if getattr(mod, "SHRINK", True) and status0 == "violation" and not replay and not fast else o
+            # (an operation that kills the harness process is reported as generated: every shrinking candidate would cost a process crash)
+            crashed = isinstance(g, dict) and g.get("outcome") == "crash"
+            small = shrink(dict(o), still_fails) if getattr(mod, "SHRINK", True) and status0 == "violation" and not replay and not fast and not crashed else o
         except Exception as e:  # shrinking is best effort
             notes.append("shrink failed: %r" % (e,))
             small = o
